@@ -76,7 +76,7 @@ func roMenu() []roOp {
 		add(fmt.Sprintf("ipa.MultiScalar(points, scalars), %d terms", n), "C05 C07 C13", func(c *ipa.IPAConfig, seed int64, g *roRegion) func() string {
 			pts := make([]banderwagon.Element, n)
 			for i := range pts {
-				pts[i] = c.SRS[(i*5)%256]
+				pts[i] = reprOf(c.SRS[(i*5)%256], i%nRepr) // a mix of normalised and projective points
 			}
 			rp, rs := roEls(g, pts), roFrs(g, scal(seed, n))
 			return func() string { e, err := ipa.MultiScalar(rp, rs); return elb(e) + fmt.Sprint(err) }
